@@ -7,6 +7,7 @@ import (
 
 	"github.com/koykov/bytebuf"
 	"github.com/koykov/dyntpl"
+	"github.com/koykov/inspector/testobj_ins"
 )
 
 // chainAst is the AST of "{%<letters>= v|m1|m2… %}": each m is `name` or `name(a, b)`; a trailing raw is the print's flag.
@@ -293,6 +294,55 @@ func init() {
 				r.Violate(sig, "a global / modifier used through its alias or its namespaced name does not behave like the same global / modifier used through its plain name",
 					map[string]any{"by_name": pair[0], "by_alias": pair[1], "by_name_output": string(outs[0].Out), "by_alias_output": string(outs[1].Out), "by_name_error": outs[0].ErrStr(), "by_alias_error": outs[1].ErrStr(), "problem": bad,
 						"registered": []string{`RegisterGlobal("vgplain", "vgalias", "G<1>")`, `RegisterGlobalNS("vg", "greeting", "hi", "G<2>")`, `RegisterModFnNS("vns", "cat", "c", vcat)`, `RegisterModFn("vcatplain", "vcp", vcat)`}})
+			}
+		}
+		// more relations of the same kind, each with the expected text where the property gives it: a QUOTED literal is a
+		// literal also when its text names a global; default substitutes for every kind of empty value (typed nil
+		// pointers, a nil struct pointer, a nil map, an empty slice of structs); a modifier that looks another variable up
+		// through Ctx.Get hands its own value on; an escape letter after a bare f / F directive is applied
+		{
+			var np *int
+			var nsp *string
+			var nbp *[]byte
+			var nfp *float64
+			usr := (UserSpec{Id: "7", HasFinance: true}).Build() // Permission nil, Flags nil, History empty
+			usrNoFin := (UserSpec{Id: "8"}).Build()
+			mk := func() *dyntpl.Ctx {
+				c := dyntpl.NewCtx()
+				c.SetString("e", "")
+				c.SetString("v", "V<1>")
+				c.SetString("w", "other")
+				c.SetStatic("np", np)
+				c.SetStatic("nsp", nsp)
+				c.SetStatic("nbp", nbp)
+				c.SetStatic("nfp", nfp)
+				c.SetStatic("emap", map[string]int{})
+				c.SetStatic("eints", []int{})
+				c.Set("user", usr, testobj_ins.TestObjectInspector{})
+				c.Set("user2", usrNoFin, testobj_ins.TestObjectInspector{})
+				return c
+			}
+			for _, tc := range [][2]string{
+				{`{%= e|default("vgplain") %}|{%= e|default(vgplain) %}|{%= e|default("vg::hi") %}|{%= e|default('vgalias') %}`, "vgplain|G<1>|vg::hi|vgalias"},
+				{`{%= e|vcat("vgplain", vgplain, {k: "vgalias"}) %}`, "[vgplain,G<1>,k=vgalias]"},
+				{`{%= np|default("d") %}|{%= nsp|default("d") %}|{%= nbp|default("d") %}|{%= nfp|default(7) %}`, "d|d|d|7"},
+				{`{%= user.Permission|default("none") %}|{%= user.Flags|default("none") %}|{%= user.Finance.History|default("none") %}|{%= user2.Finance|default("none") %}`, "none|none|none|none"},
+				{`{%= emap|default("none") %}|{%= eints|default("none") %}|{%= user.Id|default("none") %}`, "none|none|7"},
+				{`{%= v|vpeek %}|{%= v|vpeek|vcat() %}|{%h= v|vpeek|default("d") %}|{% ctx x = v|vpeek %}{%= x %}`, "V<1>|V<1>[]|V&lt;1&gt;|V<1>"},
+				{`{%fh= v %}|{%Fh= v %}|{%f2h= v %}|{%fj= v %}|{%Fu= v %}|{%fq= e %}|{%fhh= v %}`, "V&lt;1&gt;|V&lt;1&gt;|V&lt;1&gt;|V\\u003c1>|V%3C1%3E|\"\"|V&amp;lt;1&amp;gt;"},
+			} {
+				key, err, pan := regTpl(tc[0], true)
+				var got rendered
+				if err == nil && pan == "" {
+					got = renderSafe(key, mk())
+				}
+				sig := "argument-and-letter-relations " + tc[0]
+				r.Count(sig, true)
+				r.Dist["argument-and-letter-relations"]++
+				if err != nil || pan != "" || got.Err != nil || got.Panic != "" || string(got.Out) != tc[1] {
+					r.Violate(sig, "literal arguments, default on empty values of every kind, a modifier that calls Ctx.Get, or a letter after a bare f / F directive do not render what the property says",
+						map[string]any{"source": tc[0], "output": string(got.Out), "expected": tc[1], "error": got.ErrStr(), "parse_error": fmt.Sprint(err), "panic": got.Panic + pan})
+				}
 			}
 		}
 		// escape letters together with a prefix, a suffix or both: the letters apply to the VALUE, prefix and suffix stand
